@@ -127,7 +127,16 @@ func r06_1(c *Ctx, rule string) {
 	}
 	// pre-increment key
 	c.R.Check(!eng.Dominates(st, ld), rule, base+"/files-key-pre-increment", c.pos(upd), "the registered id is read before the increment", "the id registered in sender.files is read after the increment: every id is off by one")
-	c.R.Check(isFieldLoad(upd.Value, "types.Stat.Path"), rule, base+"/files-value", c.pos(upd), "the id maps to the stat's path", "sender.files does not map the id to the stat's path")
+	valOK := isFieldLoad(upd.Value, "types.Stat.Path")
+	if !valOK {
+		// ... or the very value this callback has just assigned to it
+		for _, ps := range fieldStoresIn(lit, "types.Stat.Path") {
+			if eng.SameValue(eng.Canon(ps.Val), eng.Canon(upd.Value)) && eng.Dominates(ps, upd) {
+				valOK = true
+			}
+		}
+	}
+	c.R.Check(valOK, rule, base+"/files-value", c.pos(upd), "the id maps to the stat's path", "sender.files does not map the id to the stat's path")
 	// initial value: the cell is allocated in sender.walk (zero value) and
 	// every other store to it writes 0
 	initOK := strings.HasPrefix(strings.TrimPrefix(cell, "*"), w.String()+":")
@@ -360,32 +369,11 @@ func r06_4(c *Ctx, rule string) {
 			c.R.Check(dataParam && idOK, rule, c.siteName(call)+"/chunk", c.pos(call), "DATA{ID: fs.id, Data: the bytes written}", "a chunk is not DATA{ID: fs.id, Data: dt}")
 			c.ObErrChecked(rule+"/checked", call)
 			// never an empty chunk (it would read as the terminator)
-			var lenTests []string
-			eng.Instrs(fw, func(i2 ssa.Instruction) {
-				bo, ok := i2.(*ssa.BinOp)
-				if !ok {
-					return
-				}
-				if lc, isC := bo.X.(*ssa.Call); isC && c.P.CalleeName(lc) == "builtin:len" {
-					if k, ok := eng.ConstInt(bo.Y); ok && k == 0 {
-						key := fx.KeyAtEntry(bo)
-						switch bo.Op {
-						case token.EQL, token.LEQ:
-							lenTests = append(lenTests, key)
-						case token.NEQ, token.GTR:
-							lenTests = append(lenTests, "!"+key)
-						}
-					}
-				}
-			})
+			lenTests := c.emptinessTests(fw, fx, false, func(v ssa.Value) bool { _, isP := eng.Strip(v).(*ssa.Parameter); return isP })
 			if len(lenTests) == 0 {
 				c.R.Fail(rule, c.siteName(call)+"/no-empty-chunk", c.pos(call), "fileSender.Write has no len(dt) == 0 test: a zero-length write is sent as an empty DATA packet, which the receiver reads as the terminator")
 			} else {
-				as := map[string]bool{}
-				for _, k := range lenTests {
-					as[k] = true
-				}
-				c.ObUnreachable(rule, c.siteName(call)+"/no-empty-chunk", fw, as, func(i2 ssa.Instruction) bool { return i2 == ssa.Instruction(call) }, "sending a chunk", "the slice written is empty")
+				c.ObUnreachable(rule, c.siteName(call)+"/no-empty-chunk", fw, lenTests, func(i2 ssa.Instruction) bool { return i2 == ssa.Instruction(call) }, "sending a chunk", "the slice written is empty")
 			}
 		}
 		c.R.Floor(rule, "chunk sends in fileSender.Write", n, 1)
